@@ -49,7 +49,7 @@ CLAIMS["C06"] = dict(
          "obligation fails on the pinned tree: recorded as a known finding (known_findings.json).",
     design_ref="DESIGN.md section 4 C06",
     technique="contract-based deductive verification: stencil contracts on symbolic meshes + per-site NRA on the real step function",
-    note=OPS_NOTE + " The constructor clause (psi_init on terminal sites, fix_psi iff terminal_psi is not None) is not yet under contract.")
+    note=OPS_NOTE + "")
 
 CLAIMS["C04"] = dict(
     category="proof",
@@ -242,6 +242,26 @@ CLAIMS["C07"] = dict(
     note=TRUST + " Triangle, qhull, shapely are unverified C/C++ (A7); level claimed is 'other'.")
 
 NA = {}
+
+# units added after the seeded rounds (DESIGN.md section 8.5)
+EXTRA = {
+    "C03": " Also under contract: the operators object the solver uses - after the real MeshOperators.build_operators, for every CPU sparse-solver branch, the four "
+           "scalar operators are the stencil matrices (storage conversions / raw-buffer reinterpretation modelled) and the factorisation is of that Laplacian.",
+    "C06": " Which sites are pinned: the real Device.terminal_info, executed over the free term algebra of the device state, returns the boundary sites inside each "
+           "CURRENT terminal of the CURRENT mesh after any history of calls (re-meshing, in-place terminal edits); the constructor clause is decided in the __init__ unit (C06.init.*).",
+    "C07": " The real generate_mesh (wrapper around Triangle) is under contract with a stub mesher whose output is symbolic: every return path hands back the last triangulation moved "
+           "rigidly by the shift that was applied to the outline.",
+    "C09": " Syntactic contract over the numerical core: no loop, comprehension or order-exposing conversion iterates over a hash-ordered set (candidates are replayed with different PYTHONHASHSEED values).",
+    "C12": " The constructor (with and without a seed solution) is under contract for the initial step and the step cap.",
+    "C16": " Operand kinds include parameters made by closure factories (equal under ==, different values).",
+    "C17": " The stencil is also compared after a refresh with the same zero potential (the screening loop refreshes at every iteration).",
+    "C18": " After an in-place change (transform or vertex assignment) membership queries and the derived shape are built from the vertices stored now (identity-level candidates, replayed natively).",
+    "C19": " The seed guard's premise is under contract: the real Solution.__init__ records a copy of the device made at construction (sharing the mesh).",
+    "C20": " The public wrapper biot_savart_2d is under a call contract with dtype kinds (integer coordinates, real scalar height, unit factors), and current_loop_vector_potential is proved to be the "
+           "documented closed form of the position relative to the loop centre (transcendental functions uninterpreted), linear in the current, translation covariant; equality with the line integral is bounded quadrature.",
+}
+for _k, _v in EXTRA.items():
+    CLAIMS[_k]["text"] = CLAIMS[_k]["text"] + _v
 
 checks = []
 for p in props:
